@@ -186,26 +186,79 @@ class _StubRule:
         return self._key
 
 
+def _reverse_keys(r):
+    """The keys of the reverse forms of a rule (child i counted from the parent and
+    its siblings), re-derived here: shifts (-s_i,) + (s_j - s_i for j != i)."""
+    p, ch, sh = r[0], list(r[1]), list(r[2])
+    out = []
+    for i in range(len(ch)):
+        out.append([ch[i], [p] + ch[:i] + ch[i + 1 :], [-sh[i]] + [s - sh[i] for j, s in enumerate(sh) if j != i], "REVERSE"])
+    return out
+
+
+_REV_STUB = []
+
+
+def _rev_stub(r):
+    """A stub that RuleDBForest(reverse=True) accepts as a reversible rule."""
+    if not _REV_STUB:
+        from comb_spec_searcher.strategies.rule import Rule
+
+        class RevStub(Rule):
+            possibly_empty = False
+
+            def __init__(self):  # pylint: disable=super-init-not-called
+                pass
+
+            @property
+            def children(self):
+                return self._kids
+
+            def is_reversible(self):
+                return True
+
+            def forest_key(self, get_label, is_empty=None):
+                return self._fkey
+
+            def to_reverse_rule(self, idx):
+                return _StubRule(_key(self._rkeys[idx]))
+
+        _REV_STUB.append(RevStub)
+    stub = _REV_STUB[0]()
+    stub._fkey = _key(r)
+    stub._kids = tuple(r[1])
+    stub._rkeys = _reverse_keys(r)
+    return stub
+
+
 def run_forestdb(case, ctx):
-    """The same histories through RuleDBForest.add / is_verified / has_specification."""
+    """The same histories through RuleDBForest.add / is_verified / has_specification;
+    with 'reversible' flags the database is built with reverse=True and must also
+    insert the reverse keys of the flagged rules, whatever is already known."""
     from comb_spec_searcher.rule_db.forest import RuleDBForest
 
     rules = case["rules"]
     root = case.get("root", 0)
+    flags = case.get("reversible")
     try:
-        db = RuleDBForest(reverse=False)
+        db = RuleDBForest(reverse=bool(flags))
         db.link_searcher(_StubSearcher(root))
     except Exception as e:
         raise HarnessError(f"cannot build stubbed RuleDBForest: {e}")
     inserted = []
-    for r in rules:
+    n_rev = 0
+    for i, r in enumerate(rules):
         key = _key(r)
+        rev = bool(flags) and flags[i % len(flags)] and len(r[1]) >= 1
         try:
-            db.add(key.parent, key.children, _StubRule(key))
+            db.add(key.parent, key.children, _rev_stub(r) if rev else _StubRule(key))
         except Exception as e:
             ctx.fail("forestdb-add", f"RuleDBForest.add({r}) raised {describe_exc(e)}", "forestdb-add/raises")
             return
         inserted.append(r)
+        if rev:
+            inserted.extend(_reverse_keys(r))
+            n_rev += 1
         oracle = lfp([(x[0], x[1], x[2]) for x in inserted])
         for c in range(max(oracle) + 2):
             want = oracle.get(c, 0) == INF
@@ -218,6 +271,21 @@ def run_forestdb(case, ctx):
             ctx.fail("forestdb-has_specification", f"after {inserted}: has_specification()={got} for root {root}, oracle={want}")
     final = lfp([(x[0], x[1], x[2]) for x in inserted]) if inserted else {}
     ctx.nontrivial = any(v == INF for v in final.values()) and any(v != INF and v > 0 for v in final.values())
+    if n_rev:
+        ctx.label("reverse-keys")
+        # a reverse key matters when the result differs from the forward rules alone
+        fwd = lfp([(x[0], x[1], x[2]) for x in rules]) if rules else {}
+        if any(final.get(c) != fwd.get(c) for c in final):
+            ctx.label("reverse-key-changes-the-result")
+            ctx.nontrivial = True
+
+
+@st.composite
+def forestdb_case(draw, tier="quick"):
+    case = draw(history_case(tier))
+    if draw(st.booleans()):
+        case["reversible"] = draw(st.lists(st.booleans(), min_size=1, max_size=6))
+    return case
 
 
 def run_selftest(case, ctx):
@@ -337,8 +405,8 @@ def subchecks():
         SubCheck(
             name="forestdb",
             run_case=run_forestdb,
-            strategy=lambda tier: history_case(tier),
-            examples={"quick": 4000, "thorough": 60000},
+            strategy=lambda tier: forestdb_case(tier),
+            examples={"quick": 6000, "thorough": 100000},
         ),
         SubCheck(
             name="oracle-selftest",
